@@ -12,6 +12,8 @@ CONSTANTS
   FollowRetries = TRUE
   FollowAppend = TRUE
   ResyncChecksRound = TRUE
+  ResyncDeletesFirst = FALSE
+  Aborts = FALSE
   PinsOperatorHash = TRUE
   MaxAgg = 2
   QCap = 3
